@@ -20,6 +20,7 @@
 struct Item { int id; };
 static std::vector<std::string> g_log;
 static int g_handled = 0, g_total = 0;
+static bool g_destroying = false;      // the owner has decided to destroy the dispatcher (set by the probe, not read off the headers)
 
 class Disp : public XKoJen::threaded_dispatcher<Item> {
 public:
@@ -64,11 +65,13 @@ int main(int argc, char** argv) {
                 S.spawn("P" + std::to_string(p), [&d, &S, &scripts, p] {
                     for (size_t k = 0; k < scripts[p].size(); k++) {
                         int id = scripts[p][k];
-                        verif::yield("Dispatch", [&S] { return S.stores == 0; });
+                        verif::yield("Dispatch", [] { return !g_destroying; });   // contract: no dispatch once destruction has begun
                         if (k % 2) d.dispatch(Item{id}); else { Disp::ptr_type q(new Item{id}); d.dispatch(q); }
                     }
                 });
             if (mode == 0) verif::yield("AwaitHandled", [] { return g_handled == g_total; });
+            else verif::yield("BeginDestroy");
+            g_destroying = true;
             d.stop();
         }
         owner_done = true;
@@ -80,7 +83,7 @@ int main(int argc, char** argv) {
     std::string verdict_exit, verdict_dead;
     for (; step < max_steps; step++) {
         // a worker that has finished although the destruction has not begun
-        if (verdict_exit.empty() && S.stores == 0)
+        if (verdict_exit.empty() && !g_destroying)
             for (auto* t : S.threads) if (t->name[0] == 'W' && t->done) { verdict_exit = t->name + " " + std::to_string(step); break; }
         auto en = S.enabled_threads(false);
         auto strict = S.enabled_threads(true);
@@ -108,7 +111,7 @@ int main(int argc, char** argv) {
         S.step(pick);
         printf("T %s %s\n", last.c_str(), label.c_str());
     }
-    if (verdict_exit.empty() && S.stores == 0)
+    if (verdict_exit.empty() && !g_destroying)
         for (auto* t : S.threads) if (t->name[0] == 'W' && t->done) { verdict_exit = t->name + " " + std::to_string(step); break; }
     for (auto& n : S.notes) printf("NOTE %s\n", n.c_str());
     if (!verdict_exit.empty()) printf("WORKER_EXIT_ALIVE %s\n", verdict_exit.c_str());
